@@ -7,7 +7,7 @@
     Model/ClassifyCommand.v): the mapping between epochs and sample indices of
     a stretch is part of the model and of the proof, not of the harness. *)
 From Spowtd Require Import Model.Matching Model.Flags Model.DepthView Proofs.RunsSpec
-  Proofs.MatchingSpec Proofs.MatchStormsSpec Proofs.ClassifySpec Proofs.FlagsSpec Proofs.DepthViewSpec.
+  Proofs.MatchingSpec Proofs.MatchStormsSpec Proofs.ClassifySpec Proofs.FlagsSpec Proofs.DepthViewSpec Proofs.RunsRecordSpec.
 From Spowtd Require Import Model.ClassifyCommand Proofs.ClassifyCommandSpec Proofs.DepthCommandSpec.
 Close Scope Q_scope.
 
@@ -42,6 +42,25 @@ Print Assumptions C03_jump_flag_strict.
 Theorem C03_runs_exact : forall l s e, In (s, e) (true_runs l) <-> is_run l s e.
 Proof. exact true_runs_spec. Qed.
 Print Assumptions C03_runs_exact.
+
+(** Maximal runs on the data, no flag vector in the statement: every step of a
+    storm run is strictly above the threshold (IEEE-754 comparison: a value equal
+    to the threshold, or a NaN, is not), and neither neighbouring step is; the
+    same for rises over the increments, against threshold x step length. *)
+Theorem C03_storm_run_on_the_record : forall thr rain s e,
+  is_run (heavy_flags thr rain) s e <->
+  s < e /\ e <= length rain /\ (forall i, s <= i -> i < e -> heavy_step thr rain i) /\
+  (s = 0 \/ ~ heavy_step thr rain (s - 1)) /\ (e = length rain \/ ~ heavy_step thr rain e).
+Proof. exact storm_run_on_the_record. Qed.
+Print Assumptions C03_storm_run_on_the_record.
+
+Theorem C03_rise_run_on_the_record : forall thr step z s e,
+  is_run (jump_incr_flags thr step z) s e <->
+  s < e /\ e <= length z - 1 /\ (forall i, s <= i -> i < e -> fast_increment thr step z i) /\
+  (s = 0 \/ ~ fast_increment thr step z (s - 1)) /\
+  (e = length z - 1 \/ ~ fast_increment thr step z e).
+Proof. exact rise_run_on_the_record. Qed.
+Print Assumptions C03_rise_run_on_the_record.
 
 (** The depth view sums intensity x step length over exactly the steps
     s <= i < e of the storm [t0 + s*step, t0 + e*step) (exact arithmetic). *)
